@@ -43,7 +43,6 @@ import GqlProofs.EndToEnd.ParsedSchemaShape
         d'.erasePos = (setBuiltIn b (normSchemaDoc cfg d)).erasePos`
     `C13_format_roundtrip_parsed`: the same for every document the parser returned.
 
-<<<<<<< HEAD
   LOADED SCHEMAS (`FormatSchema`, second half of the property):
     `C13_schema_text_is_raw_document_text : fmtSchema cfg s = fmtSchemaDoc cfg (docOfSchemaRaw s)` — `FormatSchema`
       prints a DOCUMENT (schema definition / `extend schema` as the formatter decides, directive and type
@@ -63,7 +62,6 @@ import GqlProofs.EndToEnd.ParsedSchemaShape
       `C13_schema_linebreak_indent_counterexample`; NEW FINDINGS `C13_schema_hidden_fields_counterexample`
       (`scalar Query` prints `scalar Query {⏎}`), `C13_schema_reload_needs_no_builtin_extension`
       (`extend type __Type { … }` is lost).
-=======
   END TO END, over source texts (`EndToEnd/ParsedSchemaShape.lean`: one traversal of the schema parser
   model over the tokens of the lexer model):
     `C13_parsed_formattable`: every document the schema parser returns (any limit, source index,
@@ -74,7 +72,6 @@ import GqlProofs.EndToEnd.ParsedSchemaShape
     The hypothesis "well-formed UTF-8" is needed: the parser accepts the description `"\xFF"` (Lean
     driver: `ps -1 22ff22207363616c61722053` answers a scalar `S` with description `xff`), and
     `FormattableSchema` asks descriptions to be well-formed UTF-8 (`strRaw`).
->>>>>>> ag-endtoend
 
   NOT proved (kept so that nothing is weakened silently):
     theorem C13_doc_fixpoint … : fmtSchemaDoc cfg d' = fmtSchemaDoc cfg d
@@ -338,7 +335,6 @@ theorem C13_description_newline_indent_counterexample :
     blockStringValue (descBody [10] [97, 10, 98]) = [97, 10, 10, 98] ∧
     blockStringValue (descBody [44] [101]) = [44, 101, 10, 44] := by decide
 
-<<<<<<< HEAD
 /-! ### loaded schemas: `FormatSchema` prints a document -/
 
 /-- (1, raw) The text `FormatSchema` writes for a schema is, byte for byte, the text
@@ -676,7 +672,6 @@ end Witnesses
 #print axioms C13_schema_reload_needs_no_builtin_extension
 #print axioms C13_schema_not_a_fixpoint_counterexample
 #print axioms C13_schema_linebreak_indent_counterexample
-=======
 
 /- ======================= END TO END: over source texts ======================= -/
 
@@ -704,4 +699,3 @@ theorem C13_format_roundtrip_source {cfg : Cfg} (hind : AllBlank cfg.indent) (L 
 
 #print axioms C13_parsed_formattable
 #print axioms C13_format_roundtrip_source
->>>>>>> ag-endtoend
